@@ -3,6 +3,10 @@ import Driver.ExecOps
 import Driver.ConfigOps
 import Driver.NamerOps
 import Driver.ShellOps
+import Driver.MarkdownOps
+import Driver.YamlOps
+import Driver.TplOps
+import Driver.PrettyOps
 /-! Line-protocol driver: one operation per input line, one canonical line out. -/
 namespace Driver
 
@@ -18,6 +22,24 @@ def step (line : String) : String :=
   | "effective" :: args => opEffective args
   | "namer" :: args => opNamer args
   | "shvars" :: args => opShVars args
+  | "md" :: args => opMd args
+  | "durfmt" :: args => opDurFmt args
+  | "durparse" :: args => opDurParse args
+  | "oneliner" :: args => opOneLiner args
+  | "parseflow" :: args => opParseFlow args
+  | "yquote" :: args => opYQuote args
+  | "replace" :: args => opReplace args
+  | "render" :: args => opRender args
+  | "crlf" :: args => opCrlf args
+  | "rout" :: args => opRout args
+  | "execall" :: args => opExecAll args
+  | "compile" :: args => opCompile args
+  | "rmdiv" :: args => opRmDiv args
+  | "bash" :: args => opBash args
+  | "unmodelled" :: args => opUnmodelled args
+  | "pdiff" :: args => opPDiff args
+  | "hl" :: args => opHl args
+  | "sections" :: args => opSections args
   | _ => "bad-op"
 
 partial def loop (h : IO.FS.Stream) (out : IO.FS.Stream) : IO Unit := do
